@@ -382,8 +382,11 @@ def rule_span_impl(facts):
         if q not in IT.SPAN_IMPL and not is_span_impl:
             continue
         got = " | ".join(NORM(facts).value_flow(b))
-        seen[q] = got
         want = IT.SPAN_IMPL.get(q)
+        if want is None:
+            r.info.setdefault("new_unjudged", []).append(q)        # a new Span impl / provided method: no reviewed reference
+            continue
+        seen[q] = got
         ok = want == got
         r.ob(ok)
         if len(r.samples) < 4:
